@@ -1284,7 +1284,9 @@ class Vars:
             upper = upper.reshape((upper.size, ))
             indices = np.arange(self.first, self.first + self.size,
                                 dtype=np.int32)
-            return Bounds(self.model, indices, upper, 'U')
+            bounds = Bounds(self.model, indices, upper, 'U')
+            bounds.shape = self.shape
+            return bounds
         else:
             return self.to_affine() <= other
 
@@ -1297,7 +1299,9 @@ class Vars:
             lower = lower.reshape((lower.size, ))
             indices = np.arange(self.first, self.first + self.size,
                                 dtype=np.int32)
-            return Bounds(self.model, indices, lower, 'L')
+            bounds = Bounds(self.model, indices, lower, 'L')
+            bounds.shape = self.shape
+            return bounds
         else:
             return self.to_affine() >= other
 
@@ -1436,7 +1440,9 @@ class VarSub(Vars):
             indices = self.indices.reshape((self.indices.size, ))
             bound_indices = upper.indices.reshape((upper.indices.size, ))[indices]
             bound_values = upper.values.reshape(upper.values.size)[indices]
-            return Bounds(upper.model, bound_indices, bound_values, 'U')
+            bounds = Bounds(upper.model, bound_indices, bound_values, 'U')
+            bounds.shape = np.shape(self.indices)
+            return bounds
         else:
             return self.to_affine().__le__(other)
 
@@ -1447,7 +1453,9 @@ class VarSub(Vars):
             indices = self.indices.reshape((self.indices.size, ))
             bound_indices = lower.indices.reshape((lower.indices.size, ))[indices]
             bound_values = lower.values.reshape((lower.indices.size, ))[indices]
-            return Bounds(lower.model, bound_indices, bound_values, 'L')
+            bounds = Bounds(lower.model, bound_indices, bound_values, 'L')
+            bounds.shape = np.shape(self.indices)
+            return bounds
         else:
             return self.to_affine().__ge__(other)
 
@@ -2363,9 +2371,11 @@ class Affine:
 
         left = self - other
         if isinstance(left, Affine) and not isinstance(left, DecAffine):
-            return LinConstr(left.model, left.linear,
-                             -left.const.reshape((left.const.size, )),
-                             np.zeros(left.const.size))
+            constr = LinConstr(left.model, left.linear,
+                               -left.const.reshape((left.const.size, )),
+                               np.zeros(left.const.size))
+            constr.shape = left.shape
+            return constr
         else:
             return left.__le__(0)
 
@@ -2373,9 +2383,11 @@ class Affine:
 
         left = other - self
         if isinstance(left, Affine) and not isinstance(left, DecAffine):
-            return LinConstr(left.model, left.linear,
-                             -left.const.reshape((left.const.size,)),
-                             np.zeros(left.const.size))
+            constr = LinConstr(left.model, left.linear,
+                               -left.const.reshape((left.const.size,)),
+                               np.zeros(left.const.size))
+            constr.shape = left.shape
+            return constr
         else:
             return left.__le__(0)
 
@@ -2383,9 +2395,11 @@ class Affine:
 
         left = self - other
         if isinstance(left, Affine) and not isinstance(left, DecAffine):
-            return LinConstr(left.model, left.linear,
-                             -left.const.reshape((left.const.size,)),
-                             np.ones(left.const.size))
+            constr = LinConstr(left.model, left.linear,
+                               -left.const.reshape((left.const.size,)),
+                               np.ones(left.const.size))
+            constr.shape = left.shape
+            return constr
         else:
             return left.__eq__(0)
 
@@ -3080,6 +3094,7 @@ class LinConstr:
         self.sense = sense
         self.sign = sign
         self.index = None
+        self.shape = None
 
     def __repr__(self):
 
@@ -3107,6 +3122,9 @@ class LinConstr:
             dual_sol = solution.y['pi'][self.model.ciarray == cidx] * self.model.sign
             if dual_sol.size == 1:
                 dual_sol = dual_sol.item()
+            elif self.shape is not None and dual_sol.size == np.prod(self.shape):
+                # shaped like the array of constraints
+                dual_sol = dual_sol.reshape(self.shape)
 
             return dual_sol
 
@@ -3198,6 +3216,7 @@ class Bounds:
         self.indices = indices
         self.values = values
         self.btype = btype
+        self.shape = None
 
     def dual(self):
 
@@ -3224,6 +3243,9 @@ class Bounds:
 
             if output.size == 1:
                 output = output.item()
+            elif self.shape is not None and output.size == np.prod(self.shape):
+                # shaped like the bounded array or slice
+                output = output.reshape(self.shape)
 
             return output
 
